@@ -106,6 +106,11 @@ def gen(ch, tier):
     elif mode == 2:
         prof['timers'] = True
     plan = tcpcl_pair.gen_plan(ch, prof)
+    if mode == 1:
+        # the send queue is asked right after an endpoint entered the ending state (transfers that were cancelled must be gone from it)
+        for side in ('A', 'P'):
+            if ch.coin('q.ending', 2, 3):
+                plan['ops'].append(dict(node=side, op='txq', after=['dbus-signal', side, 4, 'session_state_changed'], delay=ch.choice('q.ending.delay', (1, 30, 300))))
     # queries placed inside transfers
     for op in plan['ops']:
         if op['op'] in ('idle', 'txq', 'rxq', 'popdup') and ch.coin('q.trig', 1, 2):
